@@ -307,6 +307,20 @@ pub fn saturated_script(rng: &mut Rng) -> Option<(MBoard, bool, Vec<Code>, &'sta
         }
         let (za, zb) = zcands[rng.below(zcands.len())];
         b.0[za] = cell(2 + rng.below(3) as u8, false);
+        // third kind: a dead end although X stands next to a weaker enemy piece that has room to be
+        // pushed (push starts are not allowed on the last step, so the state is still a dead end)
+        let with_pushable = !with_pull && rng.chance(1, 2);
+        if with_pushable {
+            let qc: Vec<usize> = ns.iter().copied().filter(|q| *q != prev && !TRAPS.contains(q) && (1..7).contains(&(q / 8))).collect();
+            if qc.is_empty() {
+                { SAT_FAIL[13].fetch_add(1, std::sync::atomic::Ordering::Relaxed); continue; }
+            }
+            let q = qc[rng.below(qc.len())];
+            if b.0[q] != 0 || (0..4u8).filter_map(|k| nb(q, k)).any(|m| m == prev) {
+                { SAT_FAIL[14].fetch_add(1, std::sync::atomic::Ordering::Relaxed); continue; }
+            }
+            b.0[q] = cell(rng.below(xs as usize) as u8, false);
+        }
         // enemy piece next to prev, weaker than X
         if with_pull {
             if b.0[psq] != 0 {
@@ -487,7 +501,7 @@ pub fn saturated_script(rng: &mut Rng) -> Option<(MBoard, bool, Vec<Code>, &'sta
         let flip = !gold;
         let tb = b.transform(mirror, flip);
         let tscript: Vec<Code> = script.iter().map(|c| map_code(*c, mirror, flip)).collect();
-        return Some((tb, gold, tscript, if with_pull { "only_pull_left" } else { "dead_end" }));
+        return Some((tb, gold, tscript, if with_pull { "only_pull_left" } else if with_pushable { "dead_end_beside_pushable_enemy" } else { "dead_end" }));
     }
     None
 }
@@ -497,7 +511,7 @@ pub fn play_saturated(games: u64, seed: u64, worker: usize, opts: &PlayOpts, mon
     for idx in 0..games {
         match saturated_script(&mut rng) {
             Some((b, gold, script, kind)) => {
-                sink.count(if kind == "dead_end" { "saturated_scripts_dead_end" } else { "saturated_scripts_only_pull_left" });
+                sink.count(&format!("saturated_scripts_{}", kind));
                 let start = if rng.chance(1, 10) { Start::Text { board: b, gold, moveno: 2 + rng.below(50) as u64 } } else { Start::Inject { board: b, gold, moveno: 2 + rng.below(50) as u64 } };
                 let mut rec = GameRecord::new("W5b-saturated", seed, (worker as u64) << 32 | idx, start);
                 play(&mut rec, Policy::Script(script), opts, &mut rng, mon, sink);
@@ -691,6 +705,45 @@ pub fn play_long_cyclers(games: u64, kmin: usize, kmax: usize, seed: u64, worker
         }
         if !done {
             sink.count("long_cycler_script_construction_failed");
+        }
+    }
+}
+
+
+/// W7c: full setup from GameState::initial() followed by a scripted 4-turn cycle played three
+/// times from the very first play-phase position (is that position recorded as an occurrence?).
+pub fn play_setup_cyclers(games: u64, seed: u64, worker: usize, mon: &mut dyn Monitor, sink: &mut Sink) {
+    let mut rng = Rng::new(seed, (worker as u64) << 8 | 0x7C);
+    let opts = PlayOpts { max_turns: 60, max_actions: 260, ..PlayOpts::default() };
+    for idx in 0..games {
+        let mut built = false;
+        for _ in 0..10 {
+            // a random valid placement order for both sides
+            let mut placements: Vec<u8> = vec![];
+            let mut model = SetupModel::new();
+            for _ in 0..2 {
+                let mut army: Vec<u8> = vec![];
+                for s in 0..6u8 {
+                    for _ in 0..COMPLEMENT[s as usize] {
+                        army.push(s);
+                    }
+                }
+                rng.shuffle(&mut army);
+                for s in &army {
+                    model.place(*s);
+                }
+                placements.extend(army);
+            }
+            if let Some(script) = cycler_script(&model.board, true, &mut rng) {
+                sink.count("setup_cycler_scripts_built");
+                let mut rec = GameRecord::new("W7c-setup-cycler", seed, (worker as u64) << 32 | idx, Start::Setup { placements });
+                play(&mut rec, Policy::Script(script), &opts, &mut rng, mon, sink);
+                built = true;
+                break;
+            }
+        }
+        if !built {
+            sink.count("setup_cycler_script_construction_failed");
         }
     }
 }
